@@ -219,7 +219,7 @@ def fitted_world(sim, sc, out, sel=('A', 0), output_convolved=False, n_data_min=
     sc['theta'] = theta_for(W, rng, len(W.fspec), dmin=sc['drange'][0])
     if sc.get('prelude'):
         run_prelude(sim, sc, out, stages=('convolve', 'fit', 'consume'))
-    d = W.write(sim.path('pkg'))
+    d = W.write(sim.path('pkg'), keep_convolved=bool(sc.get('prelude') and sc['prelude'].get('leftover_gz')))
     r = call(convolve_model_dir, d, W.filters())
     if r[0] != 'ok':
         out.discarded = 'setup-convolve:' + exc_name(r)
@@ -256,6 +256,13 @@ def run_prelude(sim, sc, out, stages=('convolve', 'fit', 'consume'), d=None, the
         r = call(convolve_model_dir, d, Wp.filters())
         if r[0] != 'ok':
             return
+        if P.get('leftover_gz'):
+            # the old package shipped compressed convolved files and they are still lying in convolved/ when the
+            # package is rebuilt and re-convolved (the freshly built <F>.fits must be the ones that count)
+            from .author import gzip_convolved
+            gzip_convolved(d)
+            out.probe('leftover_gz_convolved')
+            sim.fired('leftover_gz_convolved')
     if 'mono' in stages:
         call(convolve_model_dir_monochromatic, d)
     if 'fit' in stages:
